@@ -612,6 +612,45 @@ example : IsAscii (List.replicate 2048 32) ∧ 2048 ≤ (List.replicate 2048 32)
 example : detectXMLDoc (.bytes (utf8 (cps "<?xml version='1.0' encoding='é'?>"))) true ≠
     detectXMLDoc (.text (cps "<?xml version='1.0' encoding='é'?>")) true := by decide
 
+/-- totality of `getEncodingInfo`, for `str` and `bytes` documents alike: it returns an `EncodingInfo` whenever there
+is a document or a response to read one from, provided the two library stages do not raise on what the code hands
+them (`html.parser` on the decoded document, `Message` on the content of the deciding `<meta>`). In particular the
+short documents of finding C20-xml-short do not make it raise (the `ValueError` is caught), and nothing in the code of
+the module itself raises. -/
+theorem info_total (L : Lib) (r : Option RespD) (text : Option Doc) (t : Option Cps)
+    (hgiven : text ≠ none ∨ r ≠ none)
+    (hhtml : ∀ d e, effDoc r text = .ok d → L.html d.asText ≠ .error e)
+    (hmsg : ∀ d evs c e, effDoc r text = .ok d → L.html d.asText = .ok evs → specMetaScan evs = some c →
+      L.msg c ≠ .error e) :
+    ∃ i, getEncodingInfoD L r text t = .ok i := by
+  rw [getEncodingInfoD_eq]
+  have hd : ∃ d, effDoc r text = .ok d := by
+    cases text with
+    | some x => exact ⟨x, rfl⟩
+    | none =>
+      cases r with
+      | some rr => exact ⟨_, rfl⟩
+      | none => rcases hgiven with h | h <;> exact absurd rfl h
+  obtain ⟨d, hd⟩ := hd
+  refine getEncodingInfo_total _ _ _ _ ?_ ?_
+  · rcases hgiven with h | h
+    · left; cases text with
+      | none => exact absurd rfl h
+      | some x => simp
+    · right; cases r with
+      | none => exact absurd rfl h
+      | some x => simp
+  · simp only [hd]
+    exact metaRawOf_not_raises L d.asText (fun e => hhtml d e hd) (fun evs c e h1 h2 => hmsg d evs c e hd h1 h2)
+
+/-- non-vacuity: library stages that never raise exist -/
+example : ∃ L : Lib, ∀ x, (∀ e, L.html x ≠ .error e) ∧ ∀ e, L.msg x ≠ .error e :=
+  ⟨⟨fun _ => .ok [], fun c => .ok (c, .none)⟩, fun _ => ⟨fun _ h => (nomatch h), fun _ h => (nomatch h)⟩⟩
+
+/-- the only way out by exception that the module itself has: no document and no response (`None.read()`) -/
+theorem info_raises_without_input (L : Lib) (t : Option Cps) :
+    getEncodingInfoD L none none t = .error .attributeError := rfl
+
 /-! ## T20.6 — the HTML meta stage: which `<meta>` decides
 
 `metaScan` runs `_MetaHTMLParser.handle_starttag` over the start tags that `html.parser` reports. -/
